@@ -3,6 +3,7 @@
 -/
 import UnifexModel.Driver.Entry
 import UnifexModel.Proto.Cancellable
+import UnifexModel.Proto.DetachOnCancel
 
 namespace Unifex.Driver.Entries
 open Unifex.Proto
@@ -10,5 +11,9 @@ open Unifex.Proto
 def cancellable : ModelEntries :=
   ("cancellable", Cancellable.configs.map (fun (n, c) =>
       (n, mkEntry (Cancellable.sys c) Cancellable.obsOf (Cancellable.final c))))
+
+def detachoncancel : ModelEntries :=
+  ("detachoncancel", DetachOnCancel.configs.map (fun (n, c) =>
+      (n, mkEntry (DetachOnCancel.sys c) DetachOnCancel.obsOf (DetachOnCancel.final c))))
 
 end Unifex.Driver.Entries
